@@ -25,6 +25,11 @@ func (c *Ctx) compatFuncs() []*ssa.Function {
 		}
 		seen[fn] = true
 		out = append(out, fn)
+		if t := c.trampolineTarget(fn); t != fn {
+			// the public face of the operation: its body is one level, whatever it is called
+			add(t, depth)
+			return
+		}
 		for _, b := range fn.Blocks {
 			for _, in := range b.Instrs {
 				call, ok := in.(*ssa.Call)
@@ -380,7 +385,7 @@ func (c *Ctx) ruleKindGate(rule string) {
 }
 
 func (c *Ctx) gateAt(fn *ssa.Function, b *ssa.BasicBlock, depth int) (gate string, bad string) {
-	if depth > 3 {
+	if depth > 5 {
 		return "", ""
 	}
 	probe := ""
@@ -483,6 +488,9 @@ func (c *Ctx) gateAt(fn *ssa.Function, b *ssa.BasicBlock, depth int) (gate strin
 					if callee != fn {
 						continue
 					}
+					if c.trampolineTarget(g) == fn {
+						continue // the public face of fn: called from outside like fn used to be
+					}
 					callers++
 					gt, bd := c.gateAt(g, gb, depth+1)
 					if bd != "" {
@@ -540,7 +548,7 @@ func (c *Ctx) ruleBoundsConsulted(rule string) {
 		if tags["min"] == nil || tags["max"] == nil {
 			continue
 		}
-		fn := c.methodFn(named, "ValidateCompatibility")
+		fn := c.methodBody(named, "ValidateCompatibility")
 		if fn == nil {
 			continue
 		}
@@ -723,7 +731,7 @@ func (c *Ctx) ruleCrossKindBounds(rule string) {
 		if tags["min"] == nil || tags["max"] == nil {
 			continue
 		}
-		fn := c.methodFn(named, "ValidateCompatibility")
+		fn := c.methodBody(named, "ValidateCompatibility")
 		if fn == nil || !strings.HasPrefix(c.M.Key(fn), "schema."+named.Obj().Name()+".") {
 			continue
 		}
